@@ -49,8 +49,8 @@ ASSUME DataOK
 KeyMaximizesToValue ==
     (Mode = "keys" /\ <<cl, cs, cr>> # <<UndL, None, None>>) => Maximize(T, cl, cs, cr) = <<TRUE, T[<<cl, cs, cr>>]>>
 (* C07 / C08 on real data                                                   *)
-Laws == ph = 1 => /\ LawsMax(T, cl, cs, cr, FALSE) /\ LawsMax(T, cl, cs, cr, TRUE)
-                  /\ LawsMin(T, cl, cs, cr, FALSE) /\ NeverLonger(T, cl, cs, cr, FALSE)
+Laws == ph = 1 => /\ \A fb \in {FbNone, FbAll, {"uscript", "uregion", "bare"}} : LawsMax(T, cl, cs, cr, fb)
+                  /\ LawsMin(T, cl, cs, cr, FbNone) /\ NeverLonger(T, cl, cs, cr, FbNone)
 (* C14: the specification's direction is one the property allows, with and  *)
 (* without likely subtags; on CLDR locales the clauses agree with CLDR      *)
 Cldr1 == IF name = "" THEN <<>> ELSE << (CHOOSE p \in LayoutLocales : p[1] = name)[2] >>
